@@ -319,6 +319,40 @@ def specialised_function_case(ctypes, events, kinds=None, mode="partial"):
     return Case(name, body, goals, family="share_specialised_function/" + "+".join(ctypes), params=dict(ctypes=ctypes, events=_evname(events)))
 
 
+def shared_base_sampler_case(order):
+    """two conditions make their own static sampler from ONE base sampler (validation: make_static(), training:
+    make_static(2)), evaluated alternately: the validation loss is the same every time, the training loss is the same
+    within each block of 2 of its own evaluations"""
+    name = "share_base_sampler/two_make_static/%s" % order
+
+    def body(env):
+        W = build_world(env, ("x",))
+        base = tp.samplers.RandomUniformSampler(W.interval, n_points=2)
+        env.assume(env.L.lt(env.v(W.lb_t), env.v(W.ub_t)))
+
+        def cond(s, tag):
+            return C.PINNCondition(W.model, s, K.make_fn(["u", "x"], lambda u, x: u + x * x, "res" + tag))
+
+        if order == "val_first":
+            val, train = cond(base.make_static(), "V"), cond(base.make_static(2), "T")
+        else:
+            train, val = cond(base.make_static(2), "T"), cond(base.make_static(), "V")
+        seq = ["V", "T", "V", "T", "T", "V", "T", "V"]
+        out = {"V": [], "T": []}
+        for w in seq:
+            out[w].append((val if w == "V" else train)().reshape(-1))
+        return out
+
+    def goals(o, L, env):
+        v, t = o["V"], o["T"]
+        for j in range(1, len(v)):
+            yield "static_validation_loss_repeats[eval%d]" % j, len(v[j]) == 1 and L.eq(v[j][0], v[0][0])
+        yield "training_loss_repeats_within_its_interval[eval1]", L.eq(t[1][0], t[0][0])
+        yield "training_loss_repeats_within_its_interval[eval3]", L.eq(t[3][0], t[2][0])
+
+    return Case(name, body, goals, family="share_base_sampler", params=dict(order=order))
+
+
 def _pristine(sn):
     """default containers must still be what the signature shows: empty dicts, Points without variables"""
     if sn[0] == "dict":
@@ -540,6 +574,8 @@ def cases(tier):
     for ev in (evs if th else [evs[0], evs[-1]]):
         cs.append(specialised_function_case(("pinn", "mean"), ev))
         cs.append(specialised_function_case(("pinn", "mean"), ev, mode="factory"))
+    for order in ("val_first", "train_first"):
+        cs.append(shared_base_sampler_case(order))
     # ---- periodic sides --------------------------------------------------------------------------------
     for nonper in ("default", "empty_static", "fixed", "fixed_static"):
         cs.append(periodic_sides_case(nonper))
